@@ -26,7 +26,9 @@ TRAITS = [
     # callback of a primitive element
     {"name": "Te", "methods": [{"name": "cbn", "recv": "mut", "args": ["cbu64"], "ret": "u64"},
                                # a function-pointer argument: its name sits inside the declarator
-                               {"name": "reg", "recv": "ref", "args": ["fnptr", "u64"], "ret": "u64"}]},
+                               {"name": "reg", "recv": "ref", "args": ["fnptr", "u64"], "ret": "u64"},
+                               # the callback type written without its alias: a comma inside the C++ template argument list
+                               {"name": "cbr", "recv": "ref", "args": ["u64", "cbraw", "i32"], "ret": "u64"}]},
     # pointer-valued results (`void *`, `const void *`, typed) from by-reference and consuming entries, untyped pointer arguments
     {"name": "Tf", "methods": [{"name": "raw", "recv": "mut", "args": [], "ret": "vptr"},
                                {"name": "peek", "recv": "ref", "args": ["cvptr", "vptr"], "ret": "cvptr"},
